@@ -246,7 +246,7 @@ def gen_fn(r, d, table, value_like=False, name=None):
     if x < 0.12:
         quals.append(r.choice(["onmatch", "once", "onchange", "nocontrib", "asbool", "notnone", "distinct"]))
     elif x < 0.2:
-        quals.append(r.choice(["mine", "total", "k2"]))
+        quals.append(r.choice(["mine", "total", "k2", "ByCity", "TotalAmount", "ALL"]))  # (names are taken as written)
         if r.random() < 0.4:
             quals.append("onmatch")
     return ("fn", name, args, quals)
@@ -262,8 +262,8 @@ def gen_component(r, table):
         return ("eq", left, right)
     if k < 0.75:
         val = r.choice([gen_term(r), gen_leaf_left(r), gen_fn(r, 2, table, value_like=True), ("ref", "grp.variables.x")])
-        quals = [] if r.random() < 0.6 else r.sample(["onmatch", "latch", "onchange", "notnone", "increase", "asbool", "nocontrib"], r.randint(1, 2))
-        return ("assign", r.choice(["v", "x1", "total"]), r.choice([None, None, "k"]), quals, val)
+        quals = [] if r.random() < 0.6 else r.sample(["onmatch", "latch", "onchange", "notnone", "increase", "asbool", "nocontrib"], r.randint(1, 3))
+        return ("assign", r.choice(["v", "x1", "total", "MyVar"]), r.choice([None, None, "k", "Key"]), quals, val)
     if k < 0.9:
         left = r.choice([gen_fn(r, 2, table), ("eq", gen_leaf_left(r), gen_term(r)), gen_leaf_left(r)])
         action = r.choice([gen_fn(r, 2, table), ("assign", "w", None, [], gen_term(r))])
